@@ -64,6 +64,10 @@ impl OperationControl for Sequence {
                     .enumerate()
                     .map(|(i, o)| {
                         let optimized = o.optimize(flags);
+                        #[cfg(regexml_verif)]
+                        if flags.verif_opts & crate::verif::opts::NO_UNAMBIGUOUS != 0 {
+                            return optimized;
+                        }
                         // we can never further optimize the last operation,
                         // as it has no adjacent operation
                         if i == l - 1 {
@@ -228,7 +232,11 @@ impl Iterator for SequenceIterator<'_> {
         let mut counter = 0;
         // as long as there are iterators on the stack
         while !self.iterators.is_empty() {
+            #[cfg(regexml_verif)]
+            crate::verif::tick(14);
             loop {
+                #[cfg(regexml_verif)]
+                crate::verif::tick(15);
                 // take the top of the stack
                 let top = self.iterators.last_mut().unwrap();
                 // take the next item from the top iterator
